@@ -17,7 +17,7 @@ CONSTANTS
   O1 = 13
   O2 = 16
   O3 = 16
-  R2S = {4, 25, 36}
+  R2S = {0, 4, 25, 36}
   Margin = 8
   PosStep = 1
   NDrops = 2
